@@ -194,10 +194,17 @@ def check_parser_by_evaluation(ctx, u, us, Pr, Pc, Pstr):
     def note(key, why, node=None):
         bad.append((key, why, node))
 
+    skipped = []
+
     def guarded(fn):
         try:
             return outcome(fn)
         except Undecided as e:
+            if 'did not terminate within' in str(e):
+                # a loop counted by a parsed value (an exponent of millions): it ends, but not within the
+                # evaluator's budget; this input is left out
+                skipped.append(str(e))
+                return ('skip', None, None)
             und[0] = str(e)
             return None
     # (a) standard documents: both modes, both flat entry points, and the reader entry point's extent
@@ -266,6 +273,8 @@ def check_parser_by_evaluation(ctx, u, us, Pr, Pc, Pstr):
                     o = guarded(lambda: run_c(v_, strict))
                     if o is None:
                         break
+                    if o[0] == 'skip':
+                        continue
                     if o[0] == 'fault':
                         note('robust|fault', 'on the input %r (%s mode) the parser %s' % (v_, 'strict' if strict else 'default', o[1]))
                     elif o[0] == 'throw' and o[1] not in OKEXC:
